@@ -8,7 +8,7 @@ use serde_json::{json, Value};
 
 use crate::{checks::c05::EXEC_ADDRS, exec_oracle::*, pipe, report::*, rustc_oracle::RCase, spec::*, synx};
 
-const TEXT_ONLY: &[u64] = &[0, 8, 0x123, 0x7FFF_FFFF_FFFF_FFF0];
+const TEXT_ONLY: &[u64] = &[0, 8, 0x123, 0x7FFF_FFFF_FFFF_FFF0, 0x7FFF_FFF0, 0x8000_0000, 0xFFFF_FFF0, 0x1_0000_0000];
 
 #[derive(Clone, Debug)]
 struct Case {
